@@ -41,6 +41,9 @@ func c16List(tier string) []c16Case {
 	for i := 0; i < tierN(tier, 40, 1000); i++ {
 		out = append(out, c16Case{Family: "rpc-c02", Index: i})
 	}
+	for i := 0; i < tierN(tier, 8, 80); i++ {
+		out = append(out, c16Case{Family: "redial", Index: i, GMP: []int{1, 4, 16}[i%3]})
+	}
 	for i := 0; i < tierN(tier, 10, 100); i++ {
 		out = append(out, c16Case{Family: "burst-stream", Index: i})
 		out = append(out, c16Case{Family: "burst-unary", Index: i})
@@ -85,8 +88,116 @@ func c16Run(tier string, seed int64, idx int) *core.Result {
 		}
 	case "burst-stream", "burst-unary":
 		c16Burst(tier, seed, idx, c, res)
+	case "redial":
+		c16Redial(tier, seed, idx, c, res)
 	}
 	return res
+}
+
+// c16Redial: "dialling that peer on demand" must also hold after a dial that failed: the first
+// f dials of a name fail, later ones succeed; envelopes sent after the failure was reported must
+// be delivered (a fresh dial), in order.
+func c16Redial(tier string, seed int64, idx int, c c16Case, res *core.Result) {
+	setGMP(c.GMP)
+	h := bed.NewHooks()
+	h.Install()
+	ctx, cancel := context.WithCancel(context.Background())
+	defer cancel()
+	fails := 1 + c.Index%3
+	var mu sync.Mutex
+	dials, reported := 0, 0
+	var target *c16Peer
+	mk := func(name string) *c16Peer {
+		p := &c16Peer{name: name, link: wire.NewLink(c.Index%2, c.Index%2 == 0)}
+		wire.NewPeer(ctx, p.link.A, func(_ *wire.Peer, in *wire.Rpc) {
+			p.mu.Lock()
+			p.got = append(p.got, proto.Clone(in).(*wire.Rpc))
+			p.mu.Unlock()
+		})
+		return p
+	}
+	px := goat.NewProxy(ctx, "px", func(id string) (goat.RpcReadWriter, error) {
+		mu.Lock()
+		defer mu.Unlock()
+		dials++
+		if dials <= fails {
+			return nil, fmt.Errorf("dial %d of %q fails", dials, id)
+		}
+		target = mk(id)
+		return target.link.B, nil
+	}, nil, func(id string, reason error) {
+		mu.Lock()
+		reported++
+		mu.Unlock()
+	})
+	a0 := mk("a0")
+	px.AddClient("a0", a0.link.B)
+	go px.Serve()
+	send := func(n int) bool {
+		e := &wire.Rpc{Id: uint64(n), Header: &goatorepo.RequestHeader{Method: "/x/y", Source: "a0", Destination: "flaky"}, Body: &goatorepo.Body{Data: []byte{byte(n)}}}
+		done := make(chan error, 1)
+		go func() { done <- a0.link.A.Write(ctx, e) }()
+		st, _ := settle(tier, func() bool { return len(done) > 0 })
+		return st == "ok"
+	}
+	n := 0
+	// one envelope per failing dial; each is lost with its failed dial (there is nowhere to deliver it)
+	for f := 0; f < fails; f++ {
+		n++
+		if !send(n) {
+			res.Verdict, res.Note = core.Inconclusive, "proxy does not take envelopes"
+			return
+		}
+		want := f + 1
+		if st, _ := settle(tier, func() bool { mu.Lock(); defer mu.Unlock(); return reported >= want }); st != "ok" {
+			res.Violate("dial-error-not-reported", "dial %d failed but the disconnect callback was not invoked", f+1)
+			break
+		}
+		quiet(tier)
+	}
+	// now the peer is dialable: these must arrive, in order, through a fresh dial
+	first := n + 1
+	for k := 0; k < 5; k++ {
+		n++
+		if !send(n) {
+			res.Violate("proxy-stops-reading-after-failed-dial", "the proxy no longer takes envelopes after a failed dial")
+			break
+		}
+	}
+	st, snap := settle(tier, func() bool {
+		mu.Lock()
+		t := target
+		mu.Unlock()
+		if t == nil {
+			return false
+		}
+		t.mu.Lock()
+		defer t.mu.Unlock()
+		return len(t.got) >= 5
+	})
+	if st == "stuck" {
+		mu.Lock()
+		d := dials
+		mu.Unlock()
+		res.ViolateD("envelopes-lost-after-failed-dial", map[string]any{"dials": d, "goat_goroutines": goatParked(snap)}, "after %d failed dial(s) of a peer, envelopes sent once it is dialable never arrive (%d dial attempts in all)", fails, d)
+	} else if st == "ok" {
+		target.mu.Lock()
+		for i, g := range target.got {
+			if g.GetId() != uint64(first+i) {
+				res.Violate("redial-order", "envelope %d after the re-dial has id %d, want %d", i, g.GetId(), first+i)
+				break
+			}
+		}
+		target.mu.Unlock()
+		res.Stat("redial_cases", 1)
+	} else {
+		res.Verdict, res.Note = core.Inconclusive, "watchdog"
+	}
+	cancel()
+	bed.Hygiene(watchdog(tier))
+	bed.Uninstall()
+	h.Fold(res)
+	res.Retire = true
 }
 
 func c16Envelopes(tier string, seed int64, idx int, c c16Case, res *core.Result) {
@@ -541,11 +652,11 @@ func init() {
 	core.Register(&core.Prop{
 		ID:    "C16",
 		Level: "exploration",
-		Rule:  "(envelopes) 1..8 attached + 0..4 dialable scripted peers on one proxy, each attached peer sends uniquely numbered envelopes (random bodies, some with status/trailer, earlier ProxyRecord, a ProxyNext route, alias / blocked / unknown destinations) under one of 4 rewriting functions, with a credit scheme keeping <=12 outstanding per destination; per (source, destination) the delivered sequence must equal the sent sequence, proto.Equal modulo ProxyRecord (+ exactly one proxy name), ProxyNext (last hop popped) and the rewritten destination, each peer dialled at most once, proxy.drop never fires. (rpc) the C01 proxy-topology cases and C02 cases forced through client-proxy-demux-serve must pass their own oracles with zero drops. (burst) server-stream of 50 and 64 concurrent unary calls above the buffer: loss must be exactly accounted for by the drop hook and never a reorder/duplicate. Distinct = case descriptors; all non-trivial.",
+		Rule:  "(envelopes) 1..8 attached + 0..4 dialable scripted peers on one proxy, each attached peer sends uniquely numbered envelopes (random bodies, some with status/trailer, earlier ProxyRecord, a ProxyNext route, alias / blocked / unknown destinations) under one of 4 rewriting functions, with a credit scheme keeping <=12 outstanding per destination; per (source, destination) the delivered sequence must equal the sent sequence, proto.Equal modulo ProxyRecord (+ exactly one proxy name), ProxyNext (last hop popped) and the rewritten destination, each peer dialled at most once, proxy.drop never fires. (rpc) the C01 proxy-topology cases and C02 cases forced through client-proxy-demux-serve must pass their own oracles with zero drops. (redial) the first 1..3 dials of a name fail and later ones succeed: envelopes sent after the failure was reported arrive in order through a fresh dial. (burst) server-stream of 50 and 64 concurrent unary calls above the buffer: loss must be exactly accounted for by the drop hook and never a reorder/duplicate. Distinct = case descriptors; all non-trivial.",
 		Plan:  func(tier string, seed int64) int { return len(c16List(tier)) },
 		Run:   c16Run,
 		RequiredStats: func(string) []string {
-			return []string{"envelopes_delivered_and_compared", "rpc_workload_cases_through_proxy", "burst_streams", "hook:proxy.forward"}
+			return []string{"envelopes_delivered_and_compared", "rpc_workload_cases_through_proxy", "burst_streams", "hook:proxy.forward", "redial_cases"}
 		},
 		Assumptions: []string{"bounded families keep at most 12 envelopes outstanding per destination (below the proxy's 16-slot buffer), as the property prescribes"},
 	})
